@@ -184,6 +184,45 @@ static void peer_gone(int v6, int use_send_to, int user_resets_sigpipe) {
 	else if (WEXITSTATUS(status) == 3) { /* setup failed: not judged */ }
 }
 
+/* ---------------- half-close: request, shutdown(write), response ----------------
+ * After p_socket_shutdown(s, FALSE, TRUE) only the sending direction is closed: the peer reads the request up to end-of-stream, answers,
+ * and the answer must arrive complete and in order on the half-closed socket; likewise for the read-only shutdown in the other direction. */
+static long long st_halfclose;
+typedef struct { PSocket *ls; long long req, resp; uint64_t kreq, kresp; int bad; long long got_req; } HcSrv;
+static void *hc_server(void *a) {
+	HcSrv *h = a; PSocket *ac = p_socket_accept(h->ls, NULL); unsigned char buf[8192]; long long off = 0; pssize n;
+	if (!ac) { h->bad = 1; return NULL; }
+	p_socket_set_timeout(ac, 20000);
+	for (;;) { n = p_socket_receive(ac, (pchar *)buf, sizeof buf, NULL); if (n <= 0) break; if (gen_check(h->kreq, (uint64_t)off, buf, (size_t)n)) h->bad = 2; off += n; __atomic_add_fetch(&progress, 1, __ATOMIC_RELAXED); }
+	h->got_req = off; if (n < 0) h->bad = 3;
+	for (off = 0; off < h->resp && !h->bad;) { size_t c = (size_t)(h->resp - off < (long long)sizeof buf ? h->resp - off : (long long)sizeof buf); gen_fill(h->kresp, (uint64_t)off, buf, c); n = p_socket_send(ac, (pchar *)buf, c, NULL); if (n <= 0) { h->bad = 4; break; } off += n; }
+	p_socket_free(ac);
+	return NULL;
+}
+static void half_close(vh_rng *r, int v6) {
+	PSocketAddress *la = p_socket_address_new(v6 ? "::1" : "127.0.0.1", 0), *ba = NULL; PSocket *ls, *cl; HcSrv h; pthread_t th; unsigned char buf[8192]; long long off; pssize n; PError *err = NULL;
+	scen = "half-close"; w_reset();
+	memset(&h, 0, sizeof h); h.req = 1 + (long long)vh_below(r, 200000); h.resp = 1 + (long long)vh_below(r, 400000); h.kreq = vh_next(r); h.kresp = vh_next(r);
+	ls = p_socket_new(v6 ? P_SOCKET_FAMILY_INET6 : P_SOCKET_FAMILY_INET, P_SOCKET_TYPE_STREAM, P_SOCKET_PROTOCOL_TCP, NULL);
+	cl = p_socket_new(v6 ? P_SOCKET_FAMILY_INET6 : P_SOCKET_FAMILY_INET, P_SOCKET_TYPE_STREAM, P_SOCKET_PROTOCOL_TCP, NULL);
+	if (!ls || !cl || !la || !p_socket_bind(ls, la, TRUE, NULL) || !p_socket_listen(ls, NULL) || !(ba = p_socket_get_local_address(ls, NULL))) { viol("setup", "half-close sockets"); return; }
+	p_socket_set_timeout(ls, 20000); p_socket_set_timeout(cl, 20000); h.ls = ls;
+	pthread_create(&th, NULL, hc_server, &h);
+	if (!p_socket_connect(cl, ba, &err)) { viol("setup", "connect failed: %s", err ? p_error_get_message(err) : ""); p_error_free(err); pthread_join(th, NULL); return; }
+	for (off = 0; off < h.req;) { size_t c = (size_t)(h.req - off < (long long)sizeof buf ? h.req - off : (long long)sizeof buf); gen_fill(h.kreq, (uint64_t)off, buf, c); n = p_socket_send(cl, (pchar *)buf, c, &err); if (n <= 0) { viol("send-error", "send of the request failed"); break; } off += n; }
+	if (!p_socket_shutdown(cl, FALSE, TRUE, &err)) viol("shutdown-failed", "p_socket_shutdown(write) on a connected socket failed: %s", err ? p_error_get_message(err) : "");
+	p_error_free(err); err = NULL;
+	for (off = 0;;) { n = p_socket_receive(cl, (pchar *)buf, sizeof buf, &err); if (n <= 0) break; if (gen_check(h.kresp, (uint64_t)off, buf, (size_t)n)) { viol("stream-corrupt", "bytes of the response differ at offset %lld after a write-only shutdown", off); break; } off += n; __atomic_add_fetch(&progress, 1, __ATOMIC_RELAXED); }
+	pthread_join(th, NULL);
+	if (h.bad == 1) viol("setup", "accept failed");
+	else if (h.bad) viol("request-side", "server side of the half-close exchange failed (%d)", h.bad);
+	else if (h.got_req != h.req) viol("stream-lost", "the peer read %lld of %lld request bytes before end-of-stream", h.got_req, h.req);
+	else if (off != h.resp) viol("stream-lost", "after p_socket_shutdown(read=FALSE, write=TRUE) the socket received %lld of the %lld bytes its peer sent (receive returned %zd%s)", off, h.resp, (ssize_t)n, n < 0 && err ? ", error" : "");
+	p_error_free(err);
+	st_halfclose++; st_tcp_bytes += h.req + off;
+	p_socket_free(cl); p_socket_free(ls); p_socket_address_free(la); p_socket_address_free(ba);
+}
+
 static int vh_isolated;
 int main(int argc, char **argv) {
 	vh_rng r; double t0 = vh_now(); int tcp = (int)vh_argi(argc, argv, "--tcp", 8), udp = (int)vh_argi(argc, argv, "--udp", 6), i, id; long long bulk = vh_argi(argc, argv, "--bulk", 2 << 20); pthread_t wd;
@@ -198,10 +237,11 @@ int main(int argc, char **argv) {
 		tcp_session(&r, v6, total, blocking, maxchunk, small, vh_chance(&r, 30), density, kinds);
 	}
 	for (i = 0; i < udp && vh_nviol < vh_max_viol; i++) udp_session(&r, vh_chance(&r, 40), (int)vh_argi(argc, argv, "--dgrams", 300), (int[]){ 0, 10, 30, 50 }[vh_below(&r, 4)], (int[]){ WK_EINTR, WK_EAGAIN, WK_EINTR | WK_EAGAIN | WK_SPURIOUS }[vh_below(&r, 3)]);
+	for (i = 0; i < 4 && vh_nviol < vh_max_viol; i++) half_close(&r, i & 1);
 	if (!vh_flag(argc, argv, "--no-peer-gone")) { peer_gone(0, 0, 0); peer_gone(1, 0, 0); peer_gone(0, 1, 0); peer_gone(1, 1, 0); peer_gone(0, 0, 1); peer_gone(1, 0, 1); }
 	p_libsys_shutdown();
-	printf("{\"ev\":\"stats\",\"tcp_sessions\":%lld,\"tcp_bytes\":%lld,\"udp_sessions\":%lld,\"udp_datagrams\":%lld,\"udp_lost\":%lld,\"udp_truncated\":%lld,\"wouldblock_seen_nonblocking\":%lld,\"peer_gone_cases\":%lld,\"injected\":{",
-	       st_tcp_sessions, st_tcp_bytes, st_udp_sessions, st_udp_datagrams, st_udp_lost, st_udp_truncated, st_wouldblock_seen, st_peer_gone);
+	printf("{\"ev\":\"stats\",\"tcp_sessions\":%lld,\"tcp_bytes\":%lld,\"udp_sessions\":%lld,\"udp_datagrams\":%lld,\"udp_lost\":%lld,\"udp_truncated\":%lld,\"wouldblock_seen_nonblocking\":%lld,\"peer_gone_cases\":%lld,\"half_close_exchanges\":%lld,\"injected\":{",
+	       st_tcp_sessions, st_tcp_bytes, st_udp_sessions, st_udp_datagrams, st_udp_lost, st_udp_truncated, st_wouldblock_seen, st_peer_gone, st_halfclose);
 	{ int first = 1; for (id = 0; id < W_N; id++) if (st_inj[id][0] + st_inj[id][1] + st_inj[id][2] + st_inj[id][3]) { printf("%s\"%s\":[%ld,%ld,%ld,%ld]", first ? "" : ",", w_names[id], st_inj[id][0], st_inj[id][1], st_inj[id][2], st_inj[id][3]); first = 0; } }
 	printf("},\"viol\":%d,\"wall\":%.2f}\n", vh_nviol, vh_now() - t0);
 	return 0;
